@@ -17,7 +17,7 @@ echo "demo with change:    exit $(rundemo)"
 echo -n "baseline with change: "; /verif/tools/baseline.py "$WT" | head -1
 for id in $IDS; do
   s=$(date +%s)
-  VERIF_REPO="$WT" /verif/check $id quick > /tmp/seedtest-$id.out 2>&1; rc=$?
+  VERIF_OUT_DIR=/tmp/seedtest-out VERIF_REPO="$WT" /verif/check $id quick > /tmp/seedtest-$id.out 2>&1; rc=$?
   echo "check $id: exit $rc, $(grep -c '^VIOLATION' /tmp/seedtest-$id.out) VIOLATION lines ($(grep -c 'no-failing-input-found' /tmp/seedtest-$id.out) without input), $(( $(date +%s)-s )) s"
   grep '^VIOLATION' /tmp/seedtest-$id.out | head -2
 done
